@@ -374,14 +374,19 @@ fn hostile_reply_scenario(r: &mut Report, seed: u64, call: Call, sync_flavour: b
     r.eval();
     let mut rng = Rng::new(seed);
     let w = World::with_cfg(seed, NetCfg { lat_min: MS, lat_max: 30 * MS, random_ties: true }, TraceLevel::Off);
-    let ends: Vec<([u8; 20], SocketAddrV4)> = (0..3).map(|i| (rng.array(), SocketAddrV4::new(Ipv4Addr::new(41, 0, 0, 1 + i), 6881))).collect();
+    let n_ends = if put_mode == 6 { 20 } else { 3 };
+    let ends: Vec<([u8; 20], SocketAddrV4)> = (0..n_ends).map(|i| (rng.array(), SocketAddrV4::new(Ipv4Addr::new(41, 0, 0, 1 + i), 6881))).collect();
     let socks: Vec<SockId> = ends.iter().map(|e| w.raw(e.1)).collect();
     let stats = Rc::new(RefCell::new(ReplyStats { lookups_answered: 0, puts_answered: 0, log: vec![] }));
     let st2 = stats.clone();
     let ends2 = ends.clone();
     let socks2 = socks.clone();
     let mut rrng = rng.fork(7);
-    let hostile_lookup = rng.chance(1, 2);
+    let hostile_lookup = rng.chance(1, 2) && put_mode != 5;
+    let tally_codes = { let a = *rng.pick(&CODES); let mut b = *rng.pick(&CODES); if b == a { b = if a == 202 { 201 } else { 202 }; } (a, b) };
+    // put_mode 6: the lookup behind the call is answered from a crowded neighbourhood (see below)
+    let crowded = put_mode == 6;
+    let crowd_counter = std::rc::Rc::new(std::cell::Cell::new(0u32));
     w.set_responder(Some(Box::new(move |w, sock, d| {
         let Some(q) = Krpc::parse(&d.bytes) else { return true };
         if q.y != b'q' {
@@ -392,6 +397,7 @@ fn hostile_reply_scenario(r: &mut Report, seed: u64, call: Call, sync_flavour: b
         let name = q.q.clone().unwrap_or_default();
         let is_put = matches!(name.as_str(), "put" | "announce_peer" | "announce_signed_peer");
         let mut st = st2.borrow_mut();
+        let mut forced_delay: Option<u64> = None;
         let bytes: Vec<u8> = if is_put {
             st.puts_answered += 1;
             match put_mode {
@@ -411,8 +417,43 @@ fn hostile_reply_scenario(r: &mut Report, seed: u64, call: Call, sync_flavour: b
                         }
                     }
                 }
+                // a tally that changes its leader: the first reply carries one code, all later ones another
+                5 => {
+                    let first = st.puts_answered == 1;
+                    let code = if first { tally_codes.0 } else { tally_codes.1 };
+                    forced_delay = Some(if first { 0 } else { 60 * MS + st.puts_answered * 5 * MS });
+                    error_text(&q.t, code, &mut rrng, "refused").encode()
+                }
                 _ => error_text(&q.t, 203, &mut rrng, "bad token").encode(),
             }
+        } else if crowded && q.target().is_some() {
+            // a crowded neighbourhood: every answer lists 70 contacts nobody has listed before, each further
+            // from the target than anything listed so far, so that one lookup collects more than a
+            // thousand candidates
+            st.lookups_answered += 1;
+            let t = q.target().unwrap_or([0; 20]);
+            // the twenty answering endpoints present themselves right next to the target, so all of them are asked
+            let near = |i: usize| { let mut id = t; id[19] ^= 1 + i as u8; id };
+            let me = near(idx);
+            // (70 contacts of 26 bytes: the datagram stays below the 2048-byte receive buffer; the twenty
+            // endpoints themselves are the node's bootstrap list)
+            let mut list: Vec<([u8; 20], SocketAddrV4)> = vec![];
+            let base = crowd_counter.get();
+            crowd_counter.set(base + 70);
+            for k in 0..70u32 {
+                let n = base + k;
+                // XOR distance to the target grows with n: every contact is further than all listed before it
+                let mut id = t;
+                id[0] ^= 0x40 | ((n >> 16) as u8 & 0x3f);
+                id[1] ^= (n >> 8) as u8;
+                id[2] ^= n as u8;
+                list.push((id, SocketAddrV4::new(Ipv4Addr::new(42, (n >> 16) as u8, (n >> 8) as u8, n as u8), 6881)));
+            }
+            let mut rd = vec![("id", B::bytes(&me)), ("nodes", B::Bytes(nodes_bytes(&list)))];
+            if name != "find_node" {
+                rd.push(("token", B::bytes(b"tokn")));
+            }
+            response(&q.t, B::dict(rd), Some(&d.from), Some(&VERSION_RS6)).encode()
         } else {
             st.lookups_answered += 1;
             let honest_kind = match name.as_str() {
@@ -453,6 +494,7 @@ fn hostile_reply_scenario(r: &mut Report, seed: u64, call: Call, sync_flavour: b
             2 => 500 * MS + rrng.below(100) * MS,
             _ => 0,
         };
+        let extra = if crowded { 0 } else { forced_delay.unwrap_or(extra) };
         w.raw_send_delayed(sock, &bytes, d.from, extra);
         true
     })));
@@ -564,7 +606,7 @@ fn hostile_reply_part(r: &mut Report, a: &Args) {
     for round in 0..rounds {
         for (ci, call) in CALLS.iter().enumerate() {
             let is_put = ci >= 7;
-            let modes: Vec<usize> = if is_put { vec![0, 1, 2, 3] } else { vec![3] };
+            let modes: Vec<usize> = if is_put { vec![0, 1, 2, 3, 5, 6] } else { vec![3, 6] };
             for mode in modes {
                 let sync_flavour = (round + ci + mode + a.shard as usize) % 3 == 0;
                 hostile_reply_scenario(r, rng.u64(), *call, sync_flavour, mode);
